@@ -336,6 +336,65 @@ theorem C12_cyclic_cascade_exhausts_fuel (fuel : Nat) :
       simp [checkRow, cycleFks, hdb, runActs, applyAct, deleteVictims, runVictims, FkDecl.fk, Fk.refers,
         keyOf, hasNull, Value.isNull, List.getD, ih1, ih2]
 
+/-! ### the repaired recursion (visited set): termination on every reference graph -/
+
+/-- all (table, row) pairs of the database over the listed tables -/
+def allRows (tables : List Nat) (db : Db) : Seen := tables.flatMap (fun i => (db i).map (fun r => (i, r)))
+
+theorem rowsIn_allRows (tables : List Nat) (db : Db) (hcov : ∀ i, i ∉ tables → db i = []) :
+    RowsIn db (allRows tables db) := by
+  intro i r hr
+  by_cases hi : i ∈ tables
+  · exact List.mem_flatMap.mpr ⟨i, hi, List.mem_map.mpr ⟨r, hr, rfl⟩⟩
+  · rw [hcov i hi] at hr; simp at hr
+
+/-- Termination for EVERY foreign-key graph — cycles and self-references included — since the
+repair: `in_progress` strictly grows inside the finite set of (table, row) pairs of the database, so
+fuel `number of rows + 1` is enough for the whole DELETE (CASCADE / NO ACTION schemas; SET NULL does
+not recurse).  Before the repair no fuel was enough on a cycle (`C12_cyclic_cascade_exhausts_fuel`). -/
+theorem C12_cascade_terminates_on_every_graph (fks : List FkDecl) (hco : CascadeOnly fks) (tables : List Nat)
+    (db : Db) (hcov : ∀ i, i ∉ tables → db i = []) (t : Nat) (sel : Row → Bool) (fuel : Nat)
+    (hf : (allRows tables db).length < fuel) : deleteWithFksV fks fuel db t sel ≠ .error .fuel := by
+  have hu := rowsIn_allRows tables db hcov
+  generalize allRows tables db = u at hf hu
+  have hun : unseen u [] = u.length := by
+    unfold unseen; simp
+  have key : ∀ (vs : List Row) (seen : Seen) (db1 : Db), RowsIn db1 u → (∀ v ∈ vs, (t, v) ∈ u) →
+      runVictimsV (fun _ db v => checkRowV fks fuel [] db t v) vs seen db1 ≠ .error .fuel := by
+    intro vs
+    induction vs with
+    | nil => intro seen db1 _ _; simp [runVictimsV]
+    | cons v vs ih =>
+      intro seen db1 h1 hv
+      unfold runVictimsV
+      split
+      · rename_i e he
+        intro heq; simp only [Except.error.injEq] at heq; subst heq
+        exact checkRowV_fuel fks hco u fuel t [] db1 v h1 (hv v List.mem_cons_self) (by rw [hun]; exact hf) he
+      · rename_i db2 seen2 h2
+        have := (checkRowV_mono fks hco u fuel t [] db1 v db2 seen2 h1 h2).1
+        exact ih seen2 db2 this (fun x hx => hv x (List.mem_cons_of_mem _ hx))
+  unfold deleteWithFksV
+  simp only []
+  split
+  · rename_i e he
+    intro heq; simp only [Except.error.injEq] at heq; subst heq
+    exact key _ [] db hu (fun v hv => hu t v (List.mem_filter.mp hv).1) he
+  · simp
+
+/-- the 1 → 2 → 1 cycle that exhausted every fuel now ends with both rows deleted -/
+example : (match deleteWithFksV cycleFks 3 cycleDb 0 (fun r => r.getD 0 .null == .int 1) with
+    | .ok db => some (db 0)
+    | .error _ => none) = some [] := by decide
+
+/-- … and the self-referencing table of `C12_self_reference_counterexample` loses exactly the selected
+row and its referrer: the stale-position defect is gone (rows are found again by value) -/
+example : (match deleteWithFksV cycleFks 5
+    (fun i => if i = 0 then [[.int 2, .int 1], [.int 1, .null], [.int 3, .null], [.int 4, .int 3]] else [])
+    0 (fun r => r.getD 0 .null == .int 1) with
+    | .ok db => some (db 0)
+    | .error _ => none) = some [[.int 3, .null], [.int 4, .int 3]] := by decide
+
 /-! ### TRUNCATE … CASCADE -/
 
 /-- `get_fk_children` looks at *all* foreign keys of a table, not at the first one -/
